@@ -1,0 +1,21 @@
+//go:build verif
+
+package midix
+
+// Read-only views of the writer's bookkeeping for the verification harness
+// (built only with -tags verif; nothing here changes behaviour).
+
+// VerifTickDelta is the writer's pending delta: time elapsed since the last emitted event.
+func (w *MIDIWriter) VerifTickDelta() uint32 { return w.tickDelta }
+
+// VerifTickDelta is the track's pending delay: ticks of the global clock not yet materialised on this track.
+func (t *Track) VerifTickDelta() uint32 { return t.tickDelta }
+
+// VerifOpDeltas lists the tick deltas of the ops queued on this track, in order.
+func (t *Track) VerifOpDeltas() []uint32 {
+	r := make([]uint32, len(t.ops))
+	for i, x := range t.ops {
+		r[i] = x.TickDelta
+	}
+	return r
+}
